@@ -167,7 +167,7 @@ fn ref_window_stat(kind: &str, h: &[f64], n: usize) -> Option<Option<f64>> {
             let sxx: f64 = w.iter().map(|v| v * v).sum(); let syy: f64 = xs.iter().map(|v| v * v).sum();
             let sxy: f64 = w.iter().zip(&xs).map(|(a, b)| a * b).sum();
             let (vx, vy) = (nn * sxx - sx * sx, nn * syy - sy * sy);
-            if vx > 0.0 && vy > 0.0 { Some((nn * sxy - sx * sy) / (vx * vy).sqrt()) } else { Some(0.0) } },
+            if vx > 0.0 && vy > 0.0 { Some(((nn * sxy - sx * sy) / (vx * vy).sqrt()).clamp(-1.0, 1.0)) } else { Some(0.0) } },   // a correlation lies in [-1, 1]
         "net" => if w.len() < 2 { return None } else {
             let nn = w.len(); let mut s = 0.0;
             for j in 0..nn { for i in 0..j { s += if w[j] > w[i] { 1.0 } else if w[j] < w[i] { -1.0 } else { 0.0 } } }
@@ -509,7 +509,6 @@ fn check_invariance(kind: &str, n: usize, h: &[f64], a: f64, b: f64) -> Option<S
         v.update(x); w.update(a * x + bb);
         let (p, q) = (v.last(), w.last());
         if degenerate_step(kind, &hh, t, n) || flat(win(&hh[..=t], n.max(min_n(kind)))) { continue; }
-        if kind == "cti" && t + 1 < n && !no_skip() { continue; }               // known finding C12/cti (partially filled window)
         let exp = if mode == 2 { p.map(|p| a * p) } else { p };
         let tol = |u: f64, z: f64| (u - z).abs() <= 1e-7 * (1.0 + u.abs().max(z.abs()));
         let ok = match (q, exp) { (Some(u), Some(z)) => tol(u, z), (None, None) => true, _ => false };
